@@ -534,6 +534,15 @@ func (x *Exec) lockOp(st *State, c *ssa.CallCommon, acquire, write bool, pos tok
 	mon := x.lockMonitor(c)
 	if acquire {
 		x.nLock++
+		// symbolic counters of critical sections entered (all locks / write locks)
+		if cur, ok := st.ghost["lockSections"]; ok {
+			st.ghost["lockSections"] = intVal(tArith("+", cur.T, intLit(1)))
+		}
+		if write {
+			if cur, ok := st.ghost["writeSections"]; ok {
+				st.ghost["writeSections"] = intVal(tArith("+", cur.T, intLit(1)))
+			}
+		}
 		if mon != nil {
 			// entering the monitor: nothing is known about guarded state except the invariant
 			x.havocAllHeap(st, "lock")
